@@ -72,7 +72,11 @@ def cases(draw, tier):
     if mode == "by_id":
         n = draw(st.integers(1, 9))
     return {"table": spec, "axis": axis, "n": n, "mode": mode,
-            "seed": draw(st.integers(0, 2 ** 32 - 1))}
+            "seed": draw(st.integers(0, 2 ** 32 - 1)),
+            # how the call is spelled: keywords, positional arguments in
+            # the documented order, or the generate_subsamples() helper
+            "call": draw(st.sampled_from(["kw", "kw", "positional",
+                                          "generator"]))}
 
 
 def strategy(tier):
@@ -168,6 +172,18 @@ def validity(ref, got, axis, n, mode, what):
 
 
 def run(t, case):
+    call = case.get("call", "kw")
+    if call == "positional":
+        # subsample(n, axis='sample', by_id=False, with_replacement=False,
+        #           seed=None)
+        return t.subsample(case["n"], case["axis"], case["mode"] == "by_id",
+                           case["mode"] == "with", case["seed"])
+    if call == "generator" and case["mode"] != "with":
+        from biom.util import generate_subsamples
+        g = generate_subsamples(t, case["n"], case["axis"],
+                                case["mode"] == "by_id")
+        next(g)
+        return next(g)
     kw = {"axis": case["axis"], "seed": case["seed"]}
     if case["mode"] == "with":
         kw["with_replacement"] = True
@@ -208,6 +224,9 @@ def check(case, rec):
                 raise Violation("metadata", "%s id %r metadata %r != %r" %
                                 (ax, i, have, want))
     # same seed, same result (on an independently built table)
+    rec.cls("call:" + case.get("call", "kw"))
+    if case.get("call") == "generator" and mode != "with":
+        return      # the helper takes no seed
     r2 = observe.snapshot(run(gen.build(case["table"]), case))
     if (r2["obs"], r2["samp"], r2["rows"]) != (got["obs"], got["samp"],
                                                got["rows"]):
